@@ -100,8 +100,8 @@ fn programs(tier: Tier) -> Vec<Prog> {
         } else if c.name.starts_with("SimpleContract") {
             add("SimpleContract.json", c.code.clone(), if tier.thorough() { 1 } else { 7 });
         } else if tier.thorough() && c.code.len() <= 2000 {
-            // further small shipped contracts, stratified (every k <= 200, then every 13th)
-            add(&c.name.clone(), c.code.clone(), 13);
+            // further small shipped contracts, stratified (every k <= 200, then every 53rd)
+            add(&c.name.clone(), c.code.clone(), 53);
         }
     }
     v
@@ -157,6 +157,10 @@ fn plan(tier: Tier) -> &'static Vec<Chunk> {
                 kind: Kind::Frequency,
             });
             for interval in INTERVALS {
+                // the additional corpus contracts are only interrupted at two poll intervals
+                if pr.stride > 7 && interval != 1 && interval != 100 {
+                    continue;
+                }
                 let (_, polls) = baseline(&pr.code, interval);
                 v.push(Chunk {
                     prog: pi,
